@@ -503,7 +503,12 @@ def c13(tier):
     rep = Report("C13", tier)
     wd = vlib.workdir("C13", tier)
     vlib.build_harness()
-    mc_writer(rep, wd, "quick")
+    # model level: append rounds on top of the writer's call alphabet (AppendKeeps, NoStaleTail, AppendRoundTrip)
+    cfg = "MC_Append.cfg" if tier == "thorough" else "MC_Append_small.cfg"
+    r = vlib.tlc_mc("MC_Append.tla", cfg, wd, timeout=3000, tag="mc-append", tlc=["-Xmx20g"] if False else None)
+    rep.add_mc(r, cfg)
+    if r["error"]:
+        rep.spec_violation(r, cfg)
     import refzip
     sd = vlib.seed()
     g = gen_writer.Gen(sd * 86028121 + 13, tier)
